@@ -108,8 +108,55 @@ func runC08Sites(a *Args) error {
 		}
 		return xs
 	}
+	// one real application for the families that need a store (nonce rows); every case works on its own cache
+	env := NewEnv(EnvCfg{})
 	for ci := 0; ci < a.N; ci++ {
-		switch ci % 6 {
+		switch ci % 7 {
+		case 6: // RemoveNonceWithFeederIDForAll on ORDERED nonce lists, several feeders in a row
+			ctx, _ := env.Ctx.CacheContext()
+			k := env.App.OracleKeeper
+			nv := 1 + r.Intn(4)
+			var rows, outs []string
+			type rowj struct {
+				V  int64
+				NL [][2]int64
+			}
+			var rjs []rowj
+			vals := uniq(nv, 8)
+			sort.Slice(vals, func(i, j int) bool { return vals[i] < vals[j] }) // store iteration order = key order
+			for _, v := range vals {
+				fl := uniq(6, 7)
+				if len(fl) == 0 {
+					fl = []int64{0}
+				}
+				vn := oracletypes.ValidatorNonce{Validator: "c08v" + c08Code(v)}
+				var nl [][2]int64
+				for _, f := range fl {
+					val := int64(r.Intn(4))
+					vn.NonceList = append(vn.NonceList, &oracletypes.Nonce{FeederID: uint64(100 + f), Value: uint32(val)})
+					nl = append(nl, [2]int64{100 + f, val})
+				}
+				k.SetNonce(ctx, vn)
+				rows = append(rows, cTuple(cZ(v), c08PairList(nl)))
+				rjs = append(rjs, rowj{v, nl})
+			}
+			fs := uniq(4, 7)
+			for i := range fs {
+				fs[i] += 100
+				k.RemoveNonceWithFeederIDForAll(ctx, uint64(fs[i]))
+			}
+			for _, v := range vals {
+				var nl [][2]int64
+				if n, found := k.GetNonce(ctx, "c08v"+c08Code(v)); found {
+					for _, x := range n.NonceList {
+						nl = append(nl, [2]int64{int64(x.FeederID), int64(x.Value)})
+					}
+				}
+				outs = append(outs, cTuple(cZ(v), c08PairList(nl)))
+			}
+			w.Count("site/RemoveNonceForAll")
+			w.Add(cApp("SCNonce", cList(rows), c08ZList(fs), cList(outs)),
+				c08SiteDesc{"RemoveNonceWithFeederIDForAll", map[string]interface{}{"rows": rjs, "feeders": fs}, outs, len(fs) > 1})
 		case 0: // types.Difference
 			av, bv := small(8), small(8)
 			as, bs := make([]string, len(av)), make([]string, len(bv))
